@@ -138,6 +138,7 @@ class SubCheck:
     run: Optional[Callable] = None
     explore: Optional[Callable] = None
     replay: Optional[Callable] = None   # (case, res): re-run one stored case/history without the explorer
+    prepare: Optional[Callable] = None  # (tier, inst): run once in the parent before the workers are forked (they inherit its module state)
     tiers: tuple = ("quick", "thorough")
     min_nontrivial: int = 2
     min_outcomes: int = 2
@@ -204,6 +205,11 @@ def _short_tb(exc) -> str:
 
 
 def run_subcheck(modname: str, subname: str, tier: str, seed: int) -> Result:
+    import importlib
+
+    sub = importlib.import_module(modname).SUBCHECKS[subname]
+    if sub.prepare is not None:
+        sub.prepare(tier, instantiation(seed))
     nshards = NPROC
     args = [(modname, subname, tier, seed, s, nshards) for s in range(nshards)]
     if nshards == 1:
